@@ -22,6 +22,7 @@ class StmtMixin:
             self.exec(s)
 
     def exec(self, s):
+        self.cur_stmt_line = getattr(s, 'lineno', 0)
         m = getattr(self, 'ex_' + type(s).__name__, None)
         if m is None:
             raise Unsupported(f'statement {type(s).__name__} (line {s.lineno})')
